@@ -56,6 +56,12 @@ SHAPES: Dict[str, str] = {
     "same-field-two-keys-in-fragments": ("query Q { me { ...U } node { ...N } }\n"
                                          "fragment U on User { name fullName: name friends { id } pals: friends { login } }\n"
                                          "fragment N on Node { id nodeId: id ... on Post { title heading: title } }"),
+    # `__typename` under another response key at OBJECT positions (the class gets Literal["<Type>"] whatever the key)
+    "aliased-typename-at-object-positions": ("query Q { me { kind: __typename id friends { tn: __typename login } boss { id } } "
+                                             "user { __typename name } }"),
+    # @skip / @include with LITERAL conditions (the field stays conditional: Optional with default None)
+    "literal-conditions": ("query Q { me { id name @include(if: true) email @skip(if: false) tags @include(if: false) "
+                           "friends @skip(if: false) { login @include(if: true) } } }"),
     # a fragment spread below an inline fragment of an unpacked fragment
     "mixin-below-unpacked-fragment": ("query Q { node { ...NodeParts } }\nfragment NodeParts on Node { id ... on User { ...UserFields } }\n"
                                       "fragment UserFields on User { name email age }"),
@@ -135,25 +141,73 @@ def apply(data: Any, path: Tuple[Any, ...], action: str, value: Any = None) -> A
     return d
 
 
-def corruptions(data: Any, rng: random.Random, limit: int) -> List[Dict[str, Any]]:
+def typename_keys(query: str) -> set:
+    """response keys under which `__typename` is selected anywhere in the document (`kind: __typename` -> `kind`)"""
+    from graphql import parse
+    from graphql.language import FieldNode, visit, Visitor
+
+    keys = {"__typename"}
+
+    class V(Visitor):
+        def enter_field(self, node: Any, *_: Any) -> None:
+            if node.name.value == "__typename" and node.alias:
+                keys.add(node.alias.value)
+
+    try:
+        visit(parse(query), V())
+    except Exception:
+        pass
+    return keys
+
+
+def corruptions(data: Any, rng: random.Random, limit: int, tn_keys: Any = ("__typename",)) -> List[Dict[str, Any]]:
     out: List[Dict[str, Any]] = []
     for path, v in enumerate_points(data):
         if v is not None:
             out.append({"path": list(path), "action": "null"})
         if isinstance(path[-1], str):
             out.append({"path": list(path), "action": "delete"})
-        if path[-1] == "__typename":
+        if path[-1] in tn_keys and isinstance(v, str):
             out.append({"path": list(path), "action": "replace", "value": "NoSuchType"})
         else:
             for r in REPLACEMENTS:
                 if jkind(r) != jkind(v) and v is not None:
                     out.append({"path": list(path), "action": "replace", "value": r})
     rng.shuffle(out)
-    # keep every kind of corruption represented
-    picked: List[Dict[str, Any]] = []
+    # keep every kind of corruption represented (typename replacements are few: all of them are kept)
+    picked: List[Dict[str, Any]] = [c for c in out if c.get("value") == "NoSuchType"][:8]
     for act in ("null", "delete", "replace"):
-        picked += [c for c in out if c["action"] == act][: max(2, limit // 3)]
-    return picked[:limit]
+        picked += [c for c in out if c["action"] == act and c.get("value") != "NoSuchType"][: max(2, limit // 3)]
+    return picked[: limit + 8]
+
+
+def declared_map(value: Any) -> List[Dict[str, Any]]:
+    """the DECLARED type of every field of the real model classes, along the validated instance: response path ->
+    is the annotation Optional[...], has the field the default None"""
+    import typing
+
+    from pydantic import BaseModel
+
+    out: List[Dict[str, Any]] = []
+
+    def is_optional(ann: Any) -> bool:
+        return typing.get_origin(ann) is typing.Union and type(None) in typing.get_args(ann)
+
+    def walk(inst: Any, path: List[Any]) -> None:
+        if isinstance(inst, BaseModel):
+            for name, f in type(inst).model_fields.items():
+                key = f.alias or name
+                if name not in inst.model_fields_set:
+                    continue
+                out.append({"path": path + [key], "optional": is_optional(f.annotation),
+                            "default_none": (not f.is_required()) and f.default is None, "cls": type(inst).__name__, "py": name})
+                walk(getattr(inst, name), path + [key])
+        elif isinstance(inst, list):
+            for i, x in enumerate(inst):
+                walk(x, path + [i])
+
+    walk(value, [])
+    return out
 
 
 @engine.with_scratch
@@ -208,7 +262,11 @@ def run_corruptions(root: Path, case: Dict[str, Any]) -> Dict[str, Any]:
         data = log[0]["data"]
         rec.update({"conformant": "ok", "query": log[0]["query"], "variables": log[0]["variables"], "data": data, "points": []})
         cls = type(value)
-        for c in corruptions(data, rng, case.get("limit", 30)):
+        try:
+            rec["declared"] = declared_map(value)
+        except BaseException as e:  # noqa: BLE001
+            rec["declared_error"] = f"{type(e).__name__}: {str(e)[:200]}"
+        for c in corruptions(data, rng, case.get("limit", 30), typename_keys(log[0]["query"])):
             payload = apply(data, tuple(c["path"]), c["action"], c.get("value"))
             try:
                 v = cls.model_validate(payload)
@@ -235,7 +293,7 @@ def position_info(schema: Any, doc: Any, op_name: str, variables: Dict[str, Any]
     from graphql.execution.collect_fields import collect_fields, collect_sub_fields
     from graphql.execution.execute import get_field_def
     from graphql.execution.values import get_variable_values
-    from graphql.language import FragmentDefinitionNode, OperationDefinitionNode
+    from graphql.language import FieldNode, FragmentDefinitionNode, OperationDefinitionNode
 
     frags = {d.name.value: d for d in doc.definitions if isinstance(d, FragmentDefinitionNode)}
     op = next(d for d in doc.definitions if isinstance(d, OperationDefinitionNode) and d.name and d.name.value == op_name)
@@ -250,6 +308,9 @@ def position_info(schema: Any, doc: Any, op_name: str, variables: Dict[str, Any]
     cur_val = data
     field_nodes: Any = None
     conditional = False
+    cond_direct = False
+    fname = None
+    plain_parent = False
     for i, p in enumerate(path):
         if isinstance(p, str):
             if p not in fields:
@@ -263,6 +324,10 @@ def position_info(schema: Any, doc: Any, op_name: str, variables: Dict[str, Any]
             # (also occurrences that collect_fields already dropped, and whatever their type condition):
             # over-approximation, so nothing the property does not state is demanded
             conditional = _any_conditional(frags, sel_sets, p)
+            nodes_here = _all_nodes(frags, sel_sets, p)
+            cond_direct = bool(nodes_here) and all(any(d.name.value in ("skip", "include") for d in (n.directives or ())) for n in nodes_here)
+            fname = field_nodes[0].name.value
+            plain_parent = all(isinstance(s_, FieldNode) for ss_ in sel_sets for s_ in ss_.selections)
             cur_val = cur_val[p]
         else:
             t = cur_type.of_type if isinstance(cur_type, GraphQLNonNull) else cur_type
@@ -271,6 +336,7 @@ def position_info(schema: Any, doc: Any, op_name: str, variables: Dict[str, Any]
             cur_type = t.of_type
             cur_val = cur_val[p]
             conditional = False
+            cond_direct = False
         # prepare descent into an object value
         if i + 1 < len(path) and isinstance(path[i + 1], str):
             named = get_named_type(cur_type)
@@ -288,7 +354,8 @@ def position_info(schema: Any, doc: Any, op_name: str, variables: Dict[str, Any]
             parent_type = rt
     named = get_named_type(cur_type)
     return {"nonnull": isinstance(cur_type, GraphQLNonNull), "list": isinstance(cur_type.of_type if isinstance(cur_type, GraphQLNonNull) else cur_type, GraphQLList),
-            "conditional": conditional, "leaf": named.name if is_leaf_type(named) else None, "named": named.name,
+            "conditional": conditional, "cond_direct": cond_direct, "fname": fname if isinstance(path[-1], str) else None,
+            "plain_parent": plain_parent, "depth": len([x for x in path if isinstance(x, str)]), "leaf": named.name if is_leaf_type(named) else None, "named": named.name,
             "abstract": bool(is_abstract_type(named)), "enum": named.__class__.__name__ == "GraphQLEnumType",
             "possible": [t.name for t in schema.get_possible_types(named)] if is_abstract_type(named) else None}
 
@@ -355,9 +422,14 @@ def expected(info: Dict[str, Any], point: Dict[str, Any], parent_info: Optional[
     if info["leaf"] in scalar_str:
         info = {**info, "leaf": "String"}  # configured with the pydantic-native type `str`: as strict as String
     custom = info["leaf"] is not None and info["leaf"] not in BUILTIN and not info["enum"]
-    if point["path"][-1] == "__typename":
-        if act == "replace" and parent_info and parent_info.get("abstract"):
-            return True, "typename:foreign"
+    if info.get("fname") == "__typename":
+        if act == "replace" and point.get("value") == "NoSuchType" and parent_info:
+            if parent_info.get("abstract"):
+                return True, "typename:foreign"
+            # an object-typed (non-root) position whose selection set is written as plain fields: the class gets Literal["<Type>"]
+            # whatever the response key of `__typename` is
+            if parent_info.get("leaf") is None and info.get("plain_parent") and not info.get("conditional"):
+                return True, "typename:foreign@object"
         return None, "typename:other"
     if act == "null":
         if info["nonnull"] and not info["conditional"]:
@@ -437,7 +509,7 @@ def corruption_run(ctx: Ctx, cases: List[Dict[str, Any]], res: Result, driver_ok
                     continue
                 pkey = json.dumps(pt["path"][:-1])
                 parent = None
-                if pt["path"][-1] == "__typename" and len(pt["path"]) > 1:
+                if info.get("fname") == "__typename" and len(pt["path"]) > 1:
                     try:
                         parent = position_info(schema, doc, call["op"], call["variables"], call["data"], pt["path"][:-1])
                     except Exception:
@@ -453,6 +525,34 @@ def corruption_run(ctx: Ctx, cases: List[Dict[str, Any]], res: Result, driver_ok
                                                  "payload": pt["payload"], "triggers": trig[ci]},
                                                 f"corrupted payload accepted at {pt['path']} ({cell})"))
                     res.count("oracle:accepted-" + cell)
+            for dc in call.get("declared") or []:
+                key = json.dumps(dc["path"])
+                if key not in infos:
+                    try:
+                        infos[key] = position_info(schema, doc, call["op"], call["variables"], call["data"], dc["path"])
+                    except Exception:
+                        infos[key] = None
+                info = infos[key]
+                if info is None or info.get("fname") == "__typename":
+                    continue
+                res.count("declared:judged")
+                sig = None
+                if info["cond_direct"] and not (dc["optional"] and dc["default_none"]):
+                    sig = "declared:not-optional@conditional"
+                elif not info["nonnull"] and not dc["optional"]:
+                    sig = "declared:not-optional@nullable"
+                elif info["nonnull"] and not info["conditional"] and (dc["optional"] or dc["default_none"]):
+                    sig = "declared:optional@nonnull-unconditional"
+                if info["cond_direct"]:
+                    res.count("declared:conditional-field")
+                if sig:
+                    res.failures.append(Failure(sig, assign(PROP, trig[ci], sig, {}),
+                                                {"sdl": c["sdl"], "queries": c["queries"], "config": c["config"], "op": call["op"],
+                                                 "path": dc["path"], "class": dc["cls"], "field": dc["py"],
+                                                 "declared": {"optional": dc["optional"], "default_none": dc["default_none"]},
+                                                 "schema_says": {k: info[k] for k in ("nonnull", "conditional", "cond_direct", "named")}, "triggers": trig[ci]},
+                                                f"declared type of {dc['cls']}.{dc['py']} is not the image of its GraphQL type ({sig})"))
+                    res.count("oracle:" + sig)
             if driver_ok and not trig[ci] and env_ops:
                 env, ops = env_ops
                 oi = next((i for i, o in enumerate(ops) if o["name"] == call["op"]), None)
